@@ -296,8 +296,10 @@ func calcPositionIfNeededHevc(pkt *RtpPacket) {
 	// |F|   Type    |  LayerId  | TID |
 	// +-------------+-----------------+
 
+	// rfc7798 4.4.1: every nal unit type below 48 (AP) is carried as a single nal unit packet,
+	// including the reserved and unspecified ones that hevc.NaluTypeMapping has no name for
 	outerNaluType := hevc.ParseNaluType(b[0])
-	if _, ok := hevc.NaluTypeMapping[outerNaluType]; ok {
+	if outerNaluType < NaluTypeHevcAp {
 		pkt.positionType = PositionTypeSingle
 		return
 	}
